@@ -45,4 +45,5 @@ registry! {
     c17::C17,
     c18::C18,
     c19::C19,
+    c23::C23,
 }
